@@ -62,7 +62,11 @@ WideCalls == {"bind", "saslext", "search", "search-bad", "add", "add-rej", "modi
 Narrow2 == {"delete", "search", "add-rej", "compare", "bind", "unbind"}
 Narrow3 == {"delete", "search", "unbind"}
 
-Rnd(ws, name, srv) == [ws |-> ws, op |-> CallOf(name).op, a |-> CallOf(name).a, srv |-> srv]
+Rnd(ws, name, srv) == [ws |-> ws, op |-> CallOf(name).op, a |-> CallOf(name).a, srv |-> srv, clone |-> FALSE]
+RndC(ws, name) == [ws |-> ws, op |-> CallOf(name).op, a |-> CallOf(name).a, srv |-> "answer", clone |-> TRUE]
+(* modifiers set on the handle, the operation invoked on a clone made afterwards; then (round 2) the handle's own operation *)
+ClonePool(pos) == IF pos = 1 THEN {RndC(ws, n) : ws \in {<<WC(C1)>>, <<WS(S1)>>, All1}, n \in {"delete", "search"}}
+                  ELSE IF pos = 2 THEN {RndC(<<>>, "search")} ELSE {}
 Srvs(name, ws, pos) ==
   IF ~HasResponse(CallOf(name).op) \/ LocalReject(CallOf(name).op, CallOf(name).a) THEN {"answer"}
   ELSE IF pos = 1 /\ ~(HasT(ws) \/ ws = <<>>) THEN {"answer"} ELSE {"answer", "silent"}
@@ -74,7 +78,7 @@ RoundPool(pos, start) ==
            ns == CASE pos = 1 -> WideCalls
                    [] pos = 2 -> IF Wide THEN Narrow2 \cup {"modify-rej", "search-bad", "extended"} ELSE Narrow2
                    [] OTHER   -> Narrow3
-       IN {Rnd(t[1], t[2], t[3]) : t \in {u \in ps \X ns \X {"answer", "silent"} : u[3] \in Srvs(u[2], u[1], pos)}}
+       IN {Rnd(t[1], t[2], t[3]) : t \in {u \in ps \X ns \X {"answer", "silent"} : u[3] \in Srvs(u[2], u[1], pos)}} \cup ClonePool(pos)
 Starts == {0, 126, 127, 254, 255, 32766, 32767, MaxI - 2, MaxI - 1, MaxI}
 
 VARIABLES start, hist, exp
